@@ -1274,7 +1274,7 @@ func (c *c19) jobDetect(nKinds, maxLen int) {
 
 var envChars = []string{"k", "j", "=", ",", " ", "%", "2", "0", "v"}
 
-var envTokens = []string{"k", "service.name", "=", ",", " ", "v", "%2C", "%3D", "%25", "%", "%2", "%C3%A9", "é", "\t", "+"}
+var envTokens = []string{"k", "service.name", "=", ",", " ", "v", "%2C", "%3D", "%25", "%", "%2", "%C3%A9", "é", "\t", "+", "%FF", "%E9"} // the last two decode to bytes that are not UTF-8: decoding is lossless all the same
 
 const tripleParts = 8
 
